@@ -224,6 +224,12 @@ def scan_module_setiter(tree, rel, set_attrs):
                 continue
             if isinstance(n, ast.For) and isinstance(n.target, ast.Name) and _keyed_stores_only(n):
                 continue      # d[x] = f(x) for every x of the set: the iterations are independent, their order is invisible
+            if isinstance(n, ast.comprehension) and isinstance(n.target, ast.Name) and not n.ifs and isinstance(p, (ast.GeneratorExp, ast.ListComp)) \
+                    and len(p.generators) == 1 and isinstance(p.elt, ast.Tuple) and len(p.elt.elts) == 2 and isinstance(p.elt.elts[0], ast.Name) \
+                    and p.elt.elts[0].id == n.target.id and isinstance(gp, ast.Call) and isinstance(gp.func, ast.Attribute) and gp.func.attr == 'update' \
+                    and len(gp.args) == 1 and gp.args[0] is p and not gp.keywords \
+                    and not any(ast.unparse(x) == ast.unparse(gp.func.value) for x in ast.walk(p.elt.elts[1]) if isinstance(x, (ast.Attribute, ast.Name))):
+                continue      # d.update((x, f(x)) for x in S): the same keyed stores, written as pairs
             out.append(('setiter:%s' % ast.unparse(it)[:40], it.lineno, 'iteration over the set `%s`: its order depends on the hash seed'
                         % ast.unparse(it)[:40], fname(n)))
         if isinstance(n, ast.Call) and isinstance(n.func, ast.Name) and n.func.id in ('list', 'tuple') and n.args and is_set_expr(n.args[0]):
